@@ -100,3 +100,11 @@ CLAIMS["C15"] = (
     "Sibling back ends Diffrax/Assimulo are analysed in the thorough tier and reported as INFO (not installed, unconfirmed).",
     "DESIGN.md section 4 C15",
 )
+CLAIMS["C13"] = (
+    "shape and provenance checks of the cache builder's single evaluation pass and of its static/dynamic classification loop (order provenance from the sorter, quantifier of the closure predicate), plus the complementary partition and the simulator default",
+    "Decides for all models: (N1) initial assignments of variables and parameters are sorted and evaluated in exactly one pass, in the sorter's order, over plain parameters | plain initial values | data | time = 0.0, and initial conditions are read from that pass; "
+    "(N2) classification follows the sorter's order, a derived quantity is static iff ALL arguments are in the growing parameter closure, reactions/surrogates are always dynamic, assignment-defined values static, and computed coefficients are frozen by the same predicate; "
+    "(N3) frozen values = plain parameters + statics from that pass and queries recompute exactly the dynamic order; (N4) derived parameters/variables are complementary; (N5) Simulator defaults to the resolved initial conditions. Values themselves are not decided.",
+    "Relies on the sorter returning a topological order (C02). Several rules match the cache builder's statement shapes; an unrecognised refactoring is reported rather than silently passed.",
+    "DESIGN.md section 4 C13",
+)
